@@ -1426,7 +1426,9 @@ class _with_solve:
                 it = enumerate(self)
                 iiter, (lhs, info) = next(it)
                 resnorm0 = info.resnorm
-                while info.resnorm > tol or iiter < miniter:
+                while not info.resnorm <= tol or iiter < miniter:
+                    if numpy.isnan(info.resnorm):
+                        raise SolverError('residual norm is not a number')
                     if iiter >= maxiter:
                         raise SolverError(f'failed to reach target tolerance in {maxiter} iterations')
                     recontext(f'{iiter+1} ({100 * numpy.log(resnorm0 / max(info.resnorm, tol)) / numpy.log(resnorm0 / tol):.0f}%)')
